@@ -161,7 +161,13 @@ def run_one(cid, case):
     """Run one case in a fresh sandbox directory. Returns a packed CaseResult."""
     chk = get_check(cid)
     old = os.getcwd()
-    sandbox = tempfile.mkdtemp(prefix=f"mc-{cid}-")
+    old_tmp = tempfile.tempdir
+    base = tempfile.mkdtemp(prefix=f"mc-{cid}-")
+    sandbox = os.path.join(base, "cwd")
+    private_tmp = os.path.join(base, "tmp")
+    os.mkdir(sandbox)
+    os.mkdir(private_tmp)
+    tempfile.tempdir = private_tmp  # the library's TemporaryDirectory() lands here: observable, race-free
     os.chdir(sandbox)
     t0 = time.time()
     try:
@@ -187,7 +193,8 @@ def run_one(cid, case):
             packed["harness_error"] = text
     finally:
         os.chdir(old)
-        shutil.rmtree(sandbox, ignore_errors=True)
+        tempfile.tempdir = old_tmp
+        shutil.rmtree(base, ignore_errors=True)
     packed["case"] = case
     packed["wall"] = time.time() - t0
     if packed.get("key") is None:
